@@ -79,8 +79,23 @@ async def _run(ops, talking, late_fail=False):
                             block_on(subs[idx])
                 await PI.settle(6)
         elif k == "loss" and transports and proto.connected.is_set():
+            busy = None
+            if len(op) > 4 and op[4]:
+                # the connection drops while a consumer is still busy with the frame that arrived last: a user subscribed to
+                # the device entry is slow (under the virtual loop class loading itself takes no time), and returns only
+                # once the connection is down
+                if "ecomax" not in proto.data:
+                    busy = loop.create_future()
+
+                    async def slow(dev, busy=busy):
+                        await busy
+                    proto.subscribe("ecomax", slow)
+                transports[-1][0].feed_data(G.enc(0x35, 0x56, 0x45, 48, 5, sensor_full))
             transports[-1][0].feed_eof()
             await PI.settle(20)
+            if busy is not None:
+                busy.set_result(None)
+                await PI.settle(10)
             if op[2]:
                 for _ in range(200):
                     if proto.connected.is_set():
@@ -163,7 +178,7 @@ class C12(Prop):
                                              for _ in range(rng.randrange(1, 4))]])
                 elif r < 0.8:
                     back = rng.random() < 0.5
-                    ops.append(["loss", rng.randrange(0, 3), back, rng.choice([0, 1, 5, 19, 21, 45])])
+                    ops.append(["loss", rng.randrange(0, 3), back, rng.choice([0, 1, 5, 19, 21, 45]), rng.random() < 0.4])
                 else:
                     ops.append(["silence", rng.choice([0, 1, 5, 9, 11, 30])])
             # close() at every point of the history
